@@ -8,7 +8,7 @@ def bounds(tier): return BOUNDS[tier]
 DESCR = {}
 EXPLANATION = PG.EXPL
 ASSUMPTIONS = PG.ASSUME
-BOUNDS = {'quick': 'every cut position (symbolic) of each of the thirteen stream templates (holes of 1 byte from 0x20..0x7e, so that the stream stays well-formed) followed by end of stream, under {one read, one byte per read; the pipelined templates also two reads split at 1/4, 1/2, 3/4 and 12 bytes before the cut}, blocking (8-byte buffer) and async; up to 5 receive calls; '
+BOUNDS = {'quick': 'every cut position (symbolic) of each of the fifteen stream templates (holes of 1 byte from 0x20..0x7e, so that the stream stays well-formed) followed by end of stream, under {one read, one byte per read; the pipelined templates also two reads split at 1/4, 1/2, 3/4 and 12 bytes before the cut}, blocking (8-byte buffer) and async; up to 5 receive calls; '
                    'the greeting line with a free 2-byte version cut at every position',
           'thorough': 'same (the cut positions are exhaustive within the templates)'}
 REQUIRED_CLASSES = ['cut on boundary', 'cut on partial', 'greeting cut']
